@@ -65,7 +65,7 @@ def run(ctx: Ctx, rep: Report) -> None:
     if isinstance(st, ast.Assign) and isinstance(st.targets[0], ast.Tuple) and len(st.targets[0].elts) == 2:
         enc_name, salt_name = norm(st.targets[0].elts[0]), norm(st.targets[0].elts[1])
     eb = bind_call_args(call, ctx.fn(ENC).params)
-    got = {k: norm(defs.expand(v)) for k, v in eb.items()}
+    got = {k: norm(ctx.xexpand(fn, v, depth=2)) for k, v in eb.items()}
     # roles of the encryption step's parameters, read off its call site in the security model
     eng = boots_p = time_p = None
     for caller, ccall in ctx.callers_of(fn):
@@ -166,7 +166,7 @@ def run(ctx: Ctx, rep: Report) -> None:
     dcred = dcreds[0] if dcreds else "credentials"
     dmsg = dfn.params[0]
     db = bind_call_args(dcall, ctx.fn(DEC).params)
-    got = {k: norm(ddefs.expand(v)) for k, v in db.items()}
+    got = {k: norm(ctx.xexpand(dfn, v, depth=2)) for k, v in db.items()}
     sp = f"USMSecurityParameters.decode({dmsg}.security_parameters)"
     want = {
         "localised_key": f"localise_key({dcred}, {sp}.authoritative_engine_id)",
